@@ -340,6 +340,54 @@ def gen_array(rng, n, big):
     return cases
 
 
+def gen_middle(rng, n, big):
+    """BitPackedMiddle<DontBhiksha|ArrayBhiksha> (lm/trie.cc, lm/bhiksha.hh): records with next pointers; enough records and
+    children that pointer bits are actually chopped, and next pointers far above 2^inline_bits"""
+    cases = []
+    for _ in range(n):
+        k = rng.range(7, 14)
+        max_vocab = rng.choice([(1 << k) - 1, 1 << k, rng.range(130, 1 << 14)])
+        quant = rng.choice([0, 1, 8, 16, 25, 31, rng.range(1, 50)])
+        nrec = rng.choice([1, 2, rng.range(3, 40), rng.range(65, 400 if big else 200), rng.range(65, 130)])
+        nrec = min(nrec, max_vocab)
+        words = sorted(set(rng.below(max_vocab + 1) for _ in range(nrec * 2)))[:nrec]
+        style = rng.below(4)
+        recs = []
+        hubs = set(rng.below(max(1, len(words))) for _ in range(rng.range(1, 3))) if style == 3 else set()
+        for wi, w in enumerate(words):
+            if style == 0:
+                ch = rng.below(4)
+            elif style == 1:
+                ch = rng.choice([0, 0, 0, 1, rng.range(100, 3000)])       # a few hubs
+            elif style == 2:
+                ch = rng.range(50, 400)
+            else:
+                # one to three nodes whose child range spans several blocks of the compressed pointer array
+                ch = rng.choice([rng.range(30000, 70000), rng.range(1 << 16, 1 << 19)]) if wi in hubs else rng.below(4)
+            recs.append("%s:%s:%s" % (hx(w), hx(rng.below(1 << quant) if quant else 0), hx(ch)))
+        bits = rng.choice([0, 1, 2, 3, 8, 22, 64, rng.range(0, 64)])
+        cases.append("TM %s %s %s %s %s" % (rng.choice(["A", "A", "A", "D"]), hx(bits), hx(max_vocab), hx(quant), " ".join(recs)))
+    return cases
+
+
+def oracle_middle(case, out):
+    f = case.split()
+    recs = [r.split(":") for r in f[5:]]
+    o = out.split()
+    if not o or o[0] != "guard-ok":
+        return "array of %d records wrote beyond the bytes Size() asked for" % len(recs)
+    got = o[1:]
+    if len(got) != len(recs):
+        return "unexpected output"
+    start = 0
+    for i, ((w, p, c), g) in enumerate(zip(recs, got)):
+        want = "%x:%x:%x:%x" % (int(p, 16), i, start, start + int(c, 16))
+        if g != want:
+            return "record %d (word %s) reads back payload:index:begin:end %s, written %s" % (i, w, g, want)
+        start += int(c, 16)
+    return None
+
+
 def oracle_array(case, out):
     f = case.split()
     recs = [r.split(":") for r in f[3:]]
@@ -358,7 +406,7 @@ def oracle_array(case, out):
 ORACLES = {"W57": oracle_bitpack, "W25": oracle_bitpack, "F32": oracle_bitpack, "F31": oracle_bitpack, "R57": oracle_bitpack,
            "R25": oracle_bitpack, "RB": oracle_scalar, "SS": oracle_scalar, "US": oracle_scalar, "P32": oracle_scalar,
            "RND": oracle_scalar, "PT": oracle_table, "AP": oracle_table, "SU": oracle_search, "BS": oracle_search,
-           "S64": oracle_search, "TA": oracle_array}
+           "S64": oracle_search, "TA": oracle_array, "TM": oracle_middle}
 
 
 def corpus_cases():
@@ -375,7 +423,7 @@ def run(ctx):
     ctx.count("corpus_cases", len(cases))
     rng = ctx.rng
     cases += gen_bitpack(rng, ctx.pick(1500, 40000)) + gen_scalar(rng, ctx.pick(600, 10000)) + \
-        gen_table(rng, ctx.pick(700, 12000), big) + gen_search(rng, ctx.pick(900, 20000), big) + gen_array(rng, ctx.pick(250, 4000), big)
+        gen_table(rng, ctx.pick(700, 12000), big) + gen_search(rng, ctx.pick(900, 20000), big) + gen_array(rng, ctx.pick(250, 4000), big) + gen_middle(rng, ctx.pick(250, 3000), big)
     impl = vlib.compile_driver("c20_driver", os.path.join(vlib.ROOT, "harness", "drivers", "c20_driver.cc"), libs=("kenlm", "kenlm_util"))
     iout = vlib.run_lines(impl, cases)
     # step 5: specification oracle on the implementation
@@ -396,7 +444,7 @@ def run(ctx):
         elif k in ("SU", "BS", "S64"):
             if len(c.split()) > 4:
                 nontrivial.add(c)
-        elif k == "TA":
+        elif k in ("TA", "TM"):
             if len(c.split()) > 40:
                 nontrivial.add(c)
         elif k in ("W57", "W25", "F32", "F31"):
